@@ -1,1 +1,1070 @@
-// container shim, see DESIGN.md 2.3
+// Solver-friendly stand-ins for std::collections::{BTreeMap, BTreeSet, HashMap}.
+// Compiled only under cfg(kani), only in the scratch copy (see DESIGN.md 2.3).
+//
+// Representation: `len` + one fixed array of CAP slots, entries 0..len sorted by key,
+// unique keys, slots >= len are None.  EVERY array access uses a loop counter that is
+// concrete after unrolling (no symbolic indexing) — that is what makes CBMC cope.
+// Loops are `while` loops over plain counters (cheaper in unoptimised MIR than Range
+// iterators).
+//
+// `insert` beyond CAP is cut with kani::assume(false): histories needing more than CAP
+// live entries per container are outside every claim (stated in evidence).
+#![allow(dead_code, unused_variables, clippy::all)]
+
+use core::{
+  borrow::Borrow,
+  fmt,
+  ops::{Bound, RangeBounds},
+};
+
+pub const CAP: usize = crate::verif_cfg::SHIM_CAP;
+
+pub struct BTreeMap<K, V> {
+  len: usize,
+  slots: [Option<(K, V)>; CAP],
+}
+
+pub type HashMap<K, V> = BTreeMap<K, V>;
+
+fn none_array<T>() -> [Option<T>; CAP] {
+  core::array::from_fn(|_| None)
+}
+
+impl<K, V> BTreeMap<K, V> {
+  pub fn new() -> Self {
+    BTreeMap {
+      len: 0,
+      slots: none_array(),
+    }
+  }
+  pub fn with_capacity(_n: usize) -> Self {
+    Self::new()
+  }
+  pub fn len(&self) -> usize {
+    self.len
+  }
+  pub fn is_empty(&self) -> bool {
+    self.len == 0
+  }
+  pub fn clear(&mut self) {
+    let mut j = 0;
+    while j < CAP {
+      self.slots[j] = None;
+      j += 1;
+    }
+    self.len = 0;
+  }
+
+  /// Harness-only: build a map from explicit slot contents (for symbolic pre-states).
+  /// The caller must `assume(verif_is_valid())`.
+  pub fn verif_from_parts(len: usize, keys: [Option<K>; CAP], vals: [Option<V>; CAP]) -> Self {
+    let mut slots: [Option<(K, V)>; CAP] = none_array();
+    let mut j = 0;
+    for (k, v) in keys.into_iter().zip(vals.into_iter()) {
+      if let (Some(k), Some(v)) = (k, v) {
+        slots[j] = Some((k, v));
+      }
+      j += 1;
+    }
+    BTreeMap { len, slots }
+  }
+
+  pub fn iter(&self) -> Iter<'_, K, V> {
+    Iter {
+      m: self,
+      front: 0,
+      back: self.len,
+      steps: 0,
+    }
+  }
+  pub fn iter_mut(&mut self) -> IterMut<'_, K, V> {
+    let n = self.len;
+    IterMut {
+      slots: self.slots.iter_mut(),
+      remaining: n,
+    }
+  }
+  pub fn keys(&self) -> Keys<'_, K, V> {
+    Keys(self.iter())
+  }
+  pub fn values(&self) -> Values<'_, K, V> {
+    Values(self.iter())
+  }
+  pub fn values_mut(&mut self) -> ValuesMut<'_, K, V> {
+    ValuesMut(self.iter_mut())
+  }
+  pub fn into_values(self) -> impl Iterator<Item = V> {
+    self.into_iter().map(|(_, v)| v)
+  }
+  pub fn into_keys(self) -> impl Iterator<Item = K> {
+    self.into_iter().map(|(k, _)| k)
+  }
+
+  pub fn first_key_value(&self) -> Option<(&K, &V)> {
+    if self.len == 0 {
+      None
+    } else {
+      self.slots[0].as_ref().map(|(k, v)| (k, v))
+    }
+  }
+
+  pub fn last_key_value(&self) -> Option<(&K, &V)> {
+    let mut res = None;
+    let mut j = 0;
+    while j < CAP {
+      if j + 1 == self.len {
+        res = self.slots[j].as_ref().map(|(k, v)| (k, v));
+      }
+      j += 1;
+    }
+    res
+  }
+
+  pub fn pop_first(&mut self) -> Option<(K, V)> {
+    if self.len == 0 {
+      return None;
+    }
+    let out = self.slots[0].take();
+    let mut j = 0;
+    while j + 1 < CAP {
+      if j + 1 < self.len {
+        self.slots[j] = self.slots[j + 1].take();
+      }
+      j += 1;
+    }
+    self.len -= 1;
+    out
+  }
+
+  pub fn pop_last(&mut self) -> Option<(K, V)> {
+    if self.len == 0 {
+      return None;
+    }
+    let mut out = None;
+    let mut j = 0;
+    while j < CAP {
+      if j + 1 == self.len {
+        out = self.slots[j].take();
+      }
+      j += 1;
+    }
+    self.len -= 1;
+    out
+  }
+}
+
+impl<K: Ord, V> BTreeMap<K, V> {
+  pub fn verif_is_valid(&self) -> bool {
+    if self.len > CAP {
+      return false;
+    }
+    let mut ok = true;
+    let mut j = 0;
+    while j < CAP {
+      if j < self.len {
+        ok = ok && self.slots[j].is_some();
+        if j + 1 < CAP && j + 1 < self.len {
+          ok = ok
+            && match (&self.slots[j], &self.slots[j + 1]) {
+              (Some((a, _)), Some((b, _))) => a < b,
+              _ => false,
+            };
+        }
+      } else {
+        ok = ok && self.slots[j].is_none();
+      }
+      j += 1;
+    }
+    ok
+  }
+
+  pub fn insert(&mut self, k: K, v: V) -> Option<V> {
+    // one scan: is the key present, and how many keys are smaller
+    let mut pos = 0usize;
+    let mut present = false;
+    let mut j = 0;
+    while j < CAP {
+      if j < self.len {
+        if let Some((a, _)) = &self.slots[j] {
+          if *a < k {
+            pos += 1;
+          } else if *a == k {
+            present = true;
+          }
+        }
+      }
+      j += 1;
+    }
+    let mut item = Some((k, v));
+    if present {
+      // replace the value at slot `pos`
+      let mut old = None;
+      let mut j = 0;
+      while j < CAP {
+        if j == pos {
+          if let Some((_, nv)) = item.take() {
+            if let Some((_, ov)) = &mut self.slots[j] {
+              old = Some(core::mem::replace(ov, nv));
+            }
+          }
+        }
+        j += 1;
+      }
+      return old;
+    }
+    if self.len >= CAP {
+      kani::assume(false); // outside the bound: more than CAP live entries
+    }
+    // one reverse scan: shift right everything at index >= pos, then place
+    let mut j = CAP - 1;
+    loop {
+      if j > pos && j <= self.len {
+        self.slots[j] = self.slots[j - 1].take();
+      } else if j == pos {
+        self.slots[j] = item.take();
+      }
+      if j == 0 {
+        break;
+      }
+      j -= 1;
+    }
+    self.len += 1;
+    None
+  }
+
+  pub fn get<Q: ?Sized + Ord>(&self, k: &Q) -> Option<&V>
+  where
+    K: Borrow<Q>,
+  {
+    let mut res: Option<&V> = None;
+    let mut j = 0;
+    while j < CAP {
+      if j < self.len {
+        if let Some((a, v)) = &self.slots[j] {
+          if a.borrow() == k {
+            res = Some(v);
+          }
+        }
+      }
+      j += 1;
+    }
+    res
+  }
+
+  pub fn get_key_value<Q: ?Sized + Ord>(&self, k: &Q) -> Option<(&K, &V)>
+  where
+    K: Borrow<Q>,
+  {
+    let mut res: Option<(&K, &V)> = None;
+    let mut j = 0;
+    while j < CAP {
+      if j < self.len {
+        if let Some((a, v)) = &self.slots[j] {
+          if a.borrow() == k {
+            res = Some((a, v));
+          }
+        }
+      }
+      j += 1;
+    }
+    res
+  }
+
+  pub fn get_mut<Q: ?Sized + Ord>(&mut self, k: &Q) -> Option<&mut V>
+  where
+    K: Borrow<Q>,
+  {
+    let n = self.len;
+    let mut res: Option<&mut V> = None;
+    let mut j = 0;
+    for slot in self.slots.iter_mut() {
+      if j < n {
+        if let Some((a, v)) = slot {
+          if (*a).borrow() == k {
+            res = Some(v);
+          }
+        }
+      }
+      j += 1;
+    }
+    res
+  }
+
+  pub fn contains_key<Q: ?Sized + Ord>(&self, k: &Q) -> bool
+  where
+    K: Borrow<Q>,
+  {
+    let mut found = false;
+    let mut j = 0;
+    while j < CAP {
+      if j < self.len {
+        if let Some((a, _)) = &self.slots[j] {
+          if a.borrow() == k {
+            found = true;
+          }
+        }
+      }
+      j += 1;
+    }
+    found
+  }
+
+  pub fn remove_entry<Q: ?Sized + Ord>(&mut self, k: &Q) -> Option<(K, V)>
+  where
+    K: Borrow<Q>,
+  {
+    let mut out: Option<(K, V)> = None;
+    let mut removed = false;
+    let mut j = 0;
+    while j < CAP {
+      if j < self.len {
+        if !removed {
+          let same = match &self.slots[j] {
+            Some((a, _)) => a.borrow() == k,
+            None => false,
+          };
+          if same {
+            out = self.slots[j].take();
+            removed = true;
+          }
+        }
+        if removed && j + 1 < CAP {
+          self.slots[j] = self.slots[j + 1].take(); // shift left
+        }
+      }
+      j += 1;
+    }
+    if removed {
+      self.len -= 1;
+    }
+    out
+  }
+
+  pub fn remove<Q: ?Sized + Ord>(&mut self, k: &Q) -> Option<V>
+  where
+    K: Borrow<Q>,
+  {
+    self.remove_entry(k).map(|(_, v)| v)
+  }
+
+  /// Positions [front, back) of the entries inside the range; panics like std on an
+  /// inverted range.
+  fn range_positions<Q: ?Sized + Ord, R: RangeBounds<Q>>(&self, r: &R) -> (usize, usize)
+  where
+    K: Borrow<Q>,
+  {
+    match (r.start_bound(), r.end_bound()) {
+      (Bound::Excluded(s), Bound::Excluded(e)) if s == e => {
+        panic!("range start and end are equal and excluded in BTreeMap")
+      }
+      (Bound::Included(s) | Bound::Excluded(s), Bound::Included(e) | Bound::Excluded(e))
+        if s > e =>
+      {
+        panic!("range start is greater than range end in BTreeMap")
+      }
+      _ => {}
+    }
+    let mut below = 0usize; // keys before the range start
+    let mut not_above = 0usize; // keys not after the range end
+    let mut j = 0;
+    while j < CAP {
+      if j < self.len {
+        if let Some((k, _)) = &self.slots[j] {
+          let kq: &Q = k.borrow();
+          let before_start = match r.start_bound() {
+            Bound::Included(lo) => kq < lo,
+            Bound::Excluded(lo) => kq <= lo,
+            Bound::Unbounded => false,
+          };
+          let within_end = match r.end_bound() {
+            Bound::Included(hi) => kq <= hi,
+            Bound::Excluded(hi) => kq < hi,
+            Bound::Unbounded => true,
+          };
+          if before_start {
+            below += 1;
+          }
+          if within_end {
+            not_above += 1;
+          }
+        }
+      }
+      j += 1;
+    }
+    let back = if not_above < below { below } else { not_above };
+    (below, back)
+  }
+
+  pub fn range<Q: ?Sized + Ord, R: RangeBounds<Q>>(&self, r: R) -> Range<'_, K, V>
+  where
+    K: Borrow<Q>,
+  {
+    let (front, back) = self.range_positions(&r);
+    Range(Iter {
+      m: self,
+      front,
+      back,
+      steps: 0,
+    })
+  }
+
+  pub fn range_mut<Q: ?Sized + Ord, R: RangeBounds<Q>>(
+    &mut self,
+    r: R,
+  ) -> impl Iterator<Item = (&K, &mut V)> + '_
+  where
+    K: Borrow<Q>,
+  {
+    let (front, back) = self.range_positions(&r);
+    self
+      .slots
+      .iter_mut()
+      .enumerate()
+      .filter_map(move |(j, s)| match s {
+        Some((k, v)) if j >= front && j < back => Some((&*k, v)),
+        _ => None,
+      })
+  }
+
+  /// Everything >= k moves to the returned map.
+  pub fn split_off<Q: ?Sized + Ord>(&mut self, k: &Q) -> Self
+  where
+    K: Borrow<Q>,
+  {
+    let mut out = Self::new();
+    let mut keep = 0usize; // number of keys < k
+    let mut j = 0;
+    while j < CAP {
+      if j < self.len {
+        if let Some((a, _)) = &self.slots[j] {
+          if a.borrow() < k {
+            keep += 1;
+          }
+        }
+      }
+      j += 1;
+    }
+    // move entry j >= keep to out[j - keep]; the destination index is symbolic, so it
+    // is a double scan with concrete indices (d <= j)
+    let mut j = 0;
+    while j < CAP {
+      if j >= keep && j < self.len {
+        let mut item = self.slots[j].take();
+        let mut d = 0;
+        while d <= j {
+          if d + keep == j {
+            out.slots[d] = item.take();
+          }
+          d += 1;
+        }
+      }
+      j += 1;
+    }
+    out.len = self.len - keep;
+    self.len = keep;
+    out
+  }
+
+  pub fn append(&mut self, other: &mut Self) {
+    let mut j = 0;
+    while j < CAP {
+      if j < other.len {
+        if let Some((k, v)) = other.slots[j].take() {
+          self.insert(k, v);
+        }
+      }
+      j += 1;
+    }
+    other.len = 0;
+  }
+
+  pub fn retain<F: FnMut(&K, &mut V) -> bool>(&mut self, mut f: F) {
+    let mut w = 0usize; // symbolic write index -> compact via double scan
+    let n = self.len;
+    let mut new: [Option<(K, V)>; CAP] = none_array();
+    let mut j = 0;
+    while j < CAP {
+      if j < n {
+        let keep = match &mut self.slots[j] {
+          Some((k, v)) => f(k, v),
+          _ => false,
+        };
+        if keep {
+          let mut item = self.slots[j].take();
+          let mut d = 0;
+          while d <= j {
+            if d == w {
+              new[d] = item.take();
+            }
+            d += 1;
+          }
+          w += 1;
+        }
+      }
+      j += 1;
+    }
+    self.slots = new;
+    self.len = w;
+  }
+
+  pub fn entry(&mut self, k: K) -> Entry<'_, K, V> {
+    if self.contains_key(&k) {
+      Entry::Occupied(OccupiedEntry { m: self, k })
+    } else {
+      Entry::Vacant(VacantEntry { m: self, k })
+    }
+  }
+}
+
+// ------------------------------------------------------------------ Entry API
+pub mod btree_map {
+  pub use super::{Entry, OccupiedEntry, VacantEntry};
+}
+pub mod hash_map {
+  pub use super::{Entry, OccupiedEntry, VacantEntry};
+}
+
+pub enum Entry<'a, K, V> {
+  Occupied(OccupiedEntry<'a, K, V>),
+  Vacant(VacantEntry<'a, K, V>),
+}
+pub struct OccupiedEntry<'a, K, V> {
+  m: &'a mut BTreeMap<K, V>,
+  k: K,
+}
+pub struct VacantEntry<'a, K, V> {
+  m: &'a mut BTreeMap<K, V>,
+  k: K,
+}
+
+impl<'a, K: Ord + Clone, V> Entry<'a, K, V> {
+  pub fn or_insert(self, default: V) -> &'a mut V {
+    match self {
+      Entry::Occupied(e) => e.into_mut(),
+      Entry::Vacant(e) => e.insert(default),
+    }
+  }
+  pub fn or_insert_with<F: FnOnce() -> V>(self, f: F) -> &'a mut V {
+    match self {
+      Entry::Occupied(e) => e.into_mut(),
+      Entry::Vacant(e) => e.insert(f()),
+    }
+  }
+  pub fn or_default(self) -> &'a mut V
+  where
+    V: Default,
+  {
+    self.or_insert_with(V::default)
+  }
+  pub fn and_modify<F: FnOnce(&mut V)>(self, f: F) -> Self {
+    match self {
+      Entry::Occupied(mut e) => {
+        f(e.get_mut());
+        Entry::Occupied(e)
+      }
+      Entry::Vacant(e) => Entry::Vacant(e),
+    }
+  }
+  pub fn key(&self) -> &K {
+    match self {
+      Entry::Occupied(e) => &e.k,
+      Entry::Vacant(e) => &e.k,
+    }
+  }
+}
+
+impl<'a, K: Ord + Clone, V> OccupiedEntry<'a, K, V> {
+  pub fn get(&self) -> &V {
+    self.m.get(&self.k).unwrap()
+  }
+  pub fn get_mut(&mut self) -> &mut V {
+    self.m.get_mut(&self.k).unwrap()
+  }
+  pub fn into_mut(self) -> &'a mut V {
+    self.m.get_mut(&self.k).unwrap()
+  }
+  pub fn insert(&mut self, v: V) -> V {
+    self.m.insert(self.k.clone(), v).unwrap()
+  }
+  pub fn remove(self) -> V {
+    self.m.remove(&self.k).unwrap()
+  }
+  pub fn key(&self) -> &K {
+    &self.k
+  }
+}
+
+impl<'a, K: Ord + Clone, V> VacantEntry<'a, K, V> {
+  pub fn insert(self, v: V) -> &'a mut V {
+    let k2 = self.k.clone();
+    self.m.insert(self.k, v);
+    self.m.get_mut(&k2).unwrap()
+  }
+  pub fn key(&self) -> &K {
+    &self.k
+  }
+}
+
+// ------------------------------------------------------------------ iterators
+pub struct Iter<'a, K, V> {
+  m: &'a BTreeMap<K, V>,
+  front: usize,
+  back: usize,
+  // number of next()/next_back() calls so far: always a concrete value during symbolic
+  // execution, so a `for` loop over a map of symbolic length stops unrolling after CAP
+  // iterations instead of running into the harness's unwind bound.
+  steps: usize,
+}
+
+impl<'a, K, V> Clone for Iter<'a, K, V> {
+  fn clone(&self) -> Self {
+    Iter {
+      m: self.m,
+      front: self.front,
+      back: self.back,
+      steps: self.steps,
+    }
+  }
+}
+
+impl<'a, K, V> Iterator for Iter<'a, K, V> {
+  type Item = (&'a K, &'a V);
+  fn next(&mut self) -> Option<Self::Item> {
+    if self.steps >= CAP {
+      return None;
+    }
+    self.steps += 1;
+    let mut res = None;
+    if self.front < self.back {
+      let mut j = 0;
+      while j < CAP {
+        if j == self.front {
+          if let Some((k, v)) = &self.m.slots[j] {
+            res = Some((k, v));
+          }
+        }
+        j += 1;
+      }
+      self.front += 1;
+    }
+    res
+  }
+  fn size_hint(&self) -> (usize, Option<usize>) {
+    let n = self.back - self.front;
+    (n, Some(n))
+  }
+}
+impl<'a, K, V> DoubleEndedIterator for Iter<'a, K, V> {
+  fn next_back(&mut self) -> Option<Self::Item> {
+    if self.steps >= CAP {
+      return None;
+    }
+    self.steps += 1;
+    let mut res = None;
+    if self.front < self.back {
+      self.back -= 1;
+      let mut j = 0;
+      while j < CAP {
+        if j == self.back {
+          if let Some((k, v)) = &self.m.slots[j] {
+            res = Some((k, v));
+          }
+        }
+        j += 1;
+      }
+    }
+    res
+  }
+}
+impl<'a, K, V> ExactSizeIterator for Iter<'a, K, V> {}
+
+pub struct Keys<'a, K, V>(Iter<'a, K, V>);
+impl<'a, K, V> Iterator for Keys<'a, K, V> {
+  type Item = &'a K;
+  fn next(&mut self) -> Option<&'a K> {
+    self.0.next().map(|(k, _)| k)
+  }
+}
+impl<'a, K, V> DoubleEndedIterator for Keys<'a, K, V> {
+  fn next_back(&mut self) -> Option<&'a K> {
+    self.0.next_back().map(|(k, _)| k)
+  }
+}
+impl<'a, K, V> Clone for Keys<'a, K, V> {
+  fn clone(&self) -> Self {
+    Keys(self.0.clone())
+  }
+}
+pub struct Values<'a, K, V>(Iter<'a, K, V>);
+impl<'a, K, V> Iterator for Values<'a, K, V> {
+  type Item = &'a V;
+  fn next(&mut self) -> Option<&'a V> {
+    self.0.next().map(|(_, v)| v)
+  }
+}
+impl<'a, K, V> DoubleEndedIterator for Values<'a, K, V> {
+  fn next_back(&mut self) -> Option<&'a V> {
+    self.0.next_back().map(|(_, v)| v)
+  }
+}
+
+pub struct IterMut<'a, K, V> {
+  slots: core::slice::IterMut<'a, Option<(K, V)>>,
+  remaining: usize,
+}
+impl<'a, K, V> Iterator for IterMut<'a, K, V> {
+  type Item = (&'a K, &'a mut V);
+  fn next(&mut self) -> Option<Self::Item> {
+    // the slice iterator has a concrete length (CAP), so this loop-free body keeps
+    // unrolling bounded by CAP
+    match self.slots.next() {
+      Some(Some((k, v))) if self.remaining > 0 => {
+        self.remaining -= 1;
+        Some((&*k, v))
+      }
+      _ => None,
+    }
+  }
+}
+pub struct ValuesMut<'a, K, V>(IterMut<'a, K, V>);
+impl<'a, K, V> Iterator for ValuesMut<'a, K, V> {
+  type Item = &'a mut V;
+  fn next(&mut self) -> Option<&'a mut V> {
+    self.0.next().map(|(_, v)| v)
+  }
+}
+
+pub struct Range<'a, K, V>(Iter<'a, K, V>);
+impl<'a, K, V> Iterator for Range<'a, K, V> {
+  type Item = (&'a K, &'a V);
+  fn next(&mut self) -> Option<Self::Item> {
+    self.0.next()
+  }
+}
+impl<'a, K, V> DoubleEndedIterator for Range<'a, K, V> {
+  fn next_back(&mut self) -> Option<Self::Item> {
+    self.0.next_back()
+  }
+}
+impl<'a, K, V> fmt::Debug for Range<'a, K, V> {
+  fn fmt(&self, f: &mut fmt::Formatter<'_>) -> fmt::Result {
+    f.write_str("Range{..}")
+  }
+}
+impl<'a, K, V> fmt::Debug for Iter<'a, K, V> {
+  fn fmt(&self, f: &mut fmt::Formatter<'_>) -> fmt::Result {
+    f.write_str("Iter{..}")
+  }
+}
+impl<'a, K, V> fmt::Debug for Keys<'a, K, V> {
+  fn fmt(&self, f: &mut fmt::Formatter<'_>) -> fmt::Result {
+    f.write_str("Keys{..}")
+  }
+}
+impl<'a, K, V> fmt::Debug for Values<'a, K, V> {
+  fn fmt(&self, f: &mut fmt::Formatter<'_>) -> fmt::Result {
+    f.write_str("Values{..}")
+  }
+}
+
+pub struct IntoIter<K, V> {
+  slots: [Option<(K, V)>; CAP],
+  front: usize,
+  back: usize,
+  steps: usize,
+}
+impl<K, V> Iterator for IntoIter<K, V> {
+  type Item = (K, V);
+  fn next(&mut self) -> Option<(K, V)> {
+    if self.steps >= CAP {
+      return None;
+    }
+    self.steps += 1;
+    let mut res = None;
+    if self.front < self.back {
+      let mut j = 0;
+      while j < CAP {
+        if j == self.front {
+          res = self.slots[j].take();
+        }
+        j += 1;
+      }
+      self.front += 1;
+    }
+    res
+  }
+}
+impl<K, V> DoubleEndedIterator for IntoIter<K, V> {
+  fn next_back(&mut self) -> Option<(K, V)> {
+    if self.steps >= CAP {
+      return None;
+    }
+    self.steps += 1;
+    let mut res = None;
+    if self.front < self.back {
+      self.back -= 1;
+      let mut j = 0;
+      while j < CAP {
+        if j == self.back {
+          res = self.slots[j].take();
+        }
+        j += 1;
+      }
+    }
+    res
+  }
+}
+impl<K, V> IntoIterator for BTreeMap<K, V> {
+  type Item = (K, V);
+  type IntoIter = IntoIter<K, V>;
+  fn into_iter(self) -> IntoIter<K, V> {
+    IntoIter {
+      steps: 0,
+      front: 0,
+      back: self.len,
+      slots: self.slots,
+    }
+  }
+}
+impl<'a, K, V> IntoIterator for &'a BTreeMap<K, V> {
+  type Item = (&'a K, &'a V);
+  type IntoIter = Iter<'a, K, V>;
+  fn into_iter(self) -> Iter<'a, K, V> {
+    self.iter()
+  }
+}
+impl<'a, K, V> IntoIterator for &'a mut BTreeMap<K, V> {
+  type Item = (&'a K, &'a mut V);
+  type IntoIter = IterMut<'a, K, V>;
+  fn into_iter(self) -> IterMut<'a, K, V> {
+    self.iter_mut()
+  }
+}
+
+impl<K: Ord, V> FromIterator<(K, V)> for BTreeMap<K, V> {
+  fn from_iter<I: IntoIterator<Item = (K, V)>>(it: I) -> Self {
+    let mut m = Self::new();
+    for (k, v) in it {
+      m.insert(k, v);
+    }
+    m
+  }
+}
+impl<K: Ord, V> Extend<(K, V)> for BTreeMap<K, V> {
+  fn extend<I: IntoIterator<Item = (K, V)>>(&mut self, it: I) {
+    for (k, v) in it {
+      self.insert(k, v);
+    }
+  }
+}
+impl<K: Ord, V, const N: usize> From<[(K, V); N]> for BTreeMap<K, V> {
+  fn from(a: [(K, V); N]) -> Self {
+    a.into_iter().collect()
+  }
+}
+impl<K, V> Default for BTreeMap<K, V> {
+  fn default() -> Self {
+    Self::new()
+  }
+}
+impl<K: Clone, V: Clone> Clone for BTreeMap<K, V> {
+  fn clone(&self) -> Self {
+    let mut m = Self::new();
+    let mut j = 0;
+    while j < CAP {
+      m.slots[j] = self.slots[j].clone();
+      j += 1;
+    }
+    m.len = self.len;
+    m
+  }
+}
+impl<K: PartialEq, V: PartialEq> PartialEq for BTreeMap<K, V> {
+  fn eq(&self, o: &Self) -> bool {
+    if self.len != o.len {
+      return false;
+    }
+    let mut eq = true;
+    let mut j = 0;
+    while j < CAP {
+      if j < self.len {
+        eq = eq && self.slots[j] == o.slots[j];
+      }
+      j += 1;
+    }
+    eq
+  }
+}
+impl<K: Eq, V: Eq> Eq for BTreeMap<K, V> {}
+impl<K, V> fmt::Debug for BTreeMap<K, V> {
+  fn fmt(&self, f: &mut fmt::Formatter<'_>) -> fmt::Result {
+    f.write_str("BTreeMap{..}")
+  }
+}
+impl<K: Ord + Borrow<Q>, Q: ?Sized + Ord, V> core::ops::Index<&Q> for BTreeMap<K, V> {
+  type Output = V;
+  fn index(&self, k: &Q) -> &V {
+    self.get(k).expect("no entry found for key")
+  }
+}
+
+// ===================================================================== BTreeSet
+pub struct BTreeSet<K> {
+  m: BTreeMap<K, ()>,
+}
+pub type HashSet<K> = BTreeSet<K>;
+
+impl<K> BTreeSet<K> {
+  pub fn new() -> Self {
+    BTreeSet { m: BTreeMap::new() }
+  }
+  pub fn len(&self) -> usize {
+    self.m.len()
+  }
+  pub fn is_empty(&self) -> bool {
+    self.m.is_empty()
+  }
+  pub fn clear(&mut self) {
+    self.m.clear()
+  }
+  pub fn iter(&self) -> Keys<'_, K, ()> {
+    self.m.keys()
+  }
+  pub fn first(&self) -> Option<&K> {
+    self.m.first_key_value().map(|(k, _)| k)
+  }
+  pub fn last(&self) -> Option<&K> {
+    self.m.last_key_value().map(|(k, _)| k)
+  }
+  pub fn pop_first(&mut self) -> Option<K> {
+    self.m.pop_first().map(|(k, _)| k)
+  }
+  pub fn pop_last(&mut self) -> Option<K> {
+    self.m.pop_last().map(|(k, _)| k)
+  }
+  pub fn verif_from_parts(len: usize, keys: [Option<K>; CAP]) -> Self {
+    let vals: [Option<()>; CAP] = core::array::from_fn(|j| Some(()));
+    BTreeSet {
+      m: BTreeMap::verif_from_parts(len, keys, vals),
+    }
+  }
+}
+impl<K: Ord> BTreeSet<K> {
+  pub fn verif_is_valid(&self) -> bool {
+    self.m.verif_is_valid()
+  }
+  pub fn insert(&mut self, k: K) -> bool {
+    self.m.insert(k, ()).is_none()
+  }
+  pub fn contains<Q: ?Sized + Ord>(&self, k: &Q) -> bool
+  where
+    K: Borrow<Q>,
+  {
+    self.m.contains_key(k)
+  }
+  pub fn remove<Q: ?Sized + Ord>(&mut self, k: &Q) -> bool
+  where
+    K: Borrow<Q>,
+  {
+    self.m.remove(k).is_some()
+  }
+  pub fn range<Q: ?Sized + Ord, R: RangeBounds<Q>>(&self, r: R) -> impl DoubleEndedIterator<Item = &K> + '_
+  where
+    K: Borrow<Q>,
+  {
+    self.m.range(r).map(|(k, _)| k)
+  }
+  pub fn split_off<Q: ?Sized + Ord>(&mut self, k: &Q) -> Self
+  where
+    K: Borrow<Q>,
+  {
+    BTreeSet {
+      m: self.m.split_off(k),
+    }
+  }
+  pub fn append(&mut self, o: &mut Self) {
+    self.m.append(&mut o.m)
+  }
+  pub fn retain<F: FnMut(&K) -> bool>(&mut self, mut f: F) {
+    self.m.retain(|k, _| f(k))
+  }
+  pub fn is_subset(&self, o: &Self) -> bool {
+    let mut ok = true;
+    for k in self.iter() {
+      ok = ok && o.contains(k);
+    }
+    ok
+  }
+  pub fn difference<'a>(&'a self, o: &'a Self) -> impl Iterator<Item = &'a K> + 'a {
+    self.iter().filter(move |k| !o.contains(*k))
+  }
+  pub fn intersection<'a>(&'a self, o: &'a Self) -> impl Iterator<Item = &'a K> + 'a {
+    self.iter().filter(move |k| o.contains(*k))
+  }
+}
+impl<K> IntoIterator for BTreeSet<K> {
+  type Item = K;
+  type IntoIter = core::iter::Map<IntoIter<K, ()>, fn((K, ())) -> K>;
+  fn into_iter(self) -> Self::IntoIter {
+    fn first<K>(p: (K, ())) -> K {
+      p.0
+    }
+    self.m.into_iter().map(first::<K> as fn((K, ())) -> K)
+  }
+}
+impl<'a, K> IntoIterator for &'a BTreeSet<K> {
+  type Item = &'a K;
+  type IntoIter = Keys<'a, K, ()>;
+  fn into_iter(self) -> Keys<'a, K, ()> {
+    self.iter()
+  }
+}
+impl<K: Ord> FromIterator<K> for BTreeSet<K> {
+  fn from_iter<I: IntoIterator<Item = K>>(it: I) -> Self {
+    let mut s = Self::new();
+    for k in it {
+      s.insert(k);
+    }
+    s
+  }
+}
+impl<K: Ord> Extend<K> for BTreeSet<K> {
+  fn extend<I: IntoIterator<Item = K>>(&mut self, it: I) {
+    for k in it {
+      self.insert(k);
+    }
+  }
+}
+impl<'a, K: Ord + Copy + 'a> Extend<&'a K> for BTreeSet<K> {
+  fn extend<I: IntoIterator<Item = &'a K>>(&mut self, it: I) {
+    for k in it {
+      self.insert(*k);
+    }
+  }
+}
+impl<K: Ord, const N: usize> From<[K; N]> for BTreeSet<K> {
+  fn from(a: [K; N]) -> Self {
+    a.into_iter().collect()
+  }
+}
+impl<K> Default for BTreeSet<K> {
+  fn default() -> Self {
+    Self::new()
+  }
+}
+impl<K: Clone> Clone for BTreeSet<K> {
+  fn clone(&self) -> Self {
+    BTreeSet { m: self.m.clone() }
+  }
+}
+impl<K: PartialEq> PartialEq for BTreeSet<K> {
+  fn eq(&self, o: &Self) -> bool {
+    self.m == o.m
+  }
+}
+impl<K: Eq> Eq for BTreeSet<K> {}
+impl<K> fmt::Debug for BTreeSet<K> {
+  fn fmt(&self, f: &mut fmt::Formatter<'_>) -> fmt::Result {
+    f.write_str("BTreeSet{..}")
+  }
+}
